@@ -17,10 +17,11 @@ echo "patch_applies=yes" >> $out
 echo "demo_mutated_exit=$(run mut)" >> $out
 tail -3 $wt/.demo_mut.log | sed 's/^/demo_mutated_tail: /' >> $out
 if [ -z "$notest" ]; then
-  PYTHONPATH=$wt NUMBA_CACHE_DIR=$wt/.nbc_t PYTHONDONTWRITEBYTECODE=1 /venv/bin/python -m pytest -q -p no:cacheprovider --timeout=900 -x -q clifford/test > $wt/.pytest.log 2>&1
+  PYTHONPATH=$wt NUMBA_CACHE_DIR=$wt/.nbc_t PYTHONDONTWRITEBYTECODE=1 /venv/bin/python -m pytest -q -p no:cacheprovider --timeout=900 -q clifford/test > $wt/.pytest.log 2>&1
   echo "pytest_exit=$?" >> $out
   tail -1 $wt/.pytest.log | sed 's/^/pytest_summary: /' >> $out
-  grep -E "^(FAILED|ERROR)" $wt/.pytest.log | head -5 | sed 's/^/pytest: /' >> $out
+  grep -E "^(FAILED|ERROR)" $wt/.pytest.log | grep -v "TestFitObjects" | head -8 | sed 's/^/pytest_unexpected: /' >> $out
+  echo "pytest_unexpected_count=$(grep -E '^(FAILED|ERROR)' $wt/.pytest.log | grep -vc TestFitObjects)" >> $out
 fi
 cd /
 git -C /repo worktree remove --force $wt
